@@ -103,9 +103,7 @@ def run(prog, chk):
     aliases = KP.size_aliases(rs.body, amp)
     sw1 = KP.state_sweep(loops[0], amp, bit_ids, aliases)
     sw2 = KP.state_sweep(loops[1], amp, bit_ids, aliases)
-    if sw1 is not None and sw1[0] != 'flat':
-        raise AnalysisBroken('reset: a blocked accumulation sweep is not recognised')
-    l1 = (sw1[1], sw1[2]) if sw1 else None
+    l1 = sw1
     l2 = sw2
     if l1 is None or l2 is None:
         why = [KP.partial_state_loop(l, amp) for l, x in ((loops[0], l1), (loops[1], l2)) if x is None]
@@ -114,9 +112,17 @@ def run(prog, chk):
             return
         raise AnalysisBroken('reset: loops are not full-range loops over the state vector')
     # ---- accumulation ------------------------------------------------------------------------
-    it = KP.PairIter(amp, l1[0]['id'], bit_ids, {}, {})
+    it = KP.PairIter(amp, None, bit_ids, {}, {})
     try:
-        accs = {b: it.run(l1[1], b) for b in (0, 1)}
+        # sums added for one pair of cells, attributed to the bit of the visit that adds them (flat sweep: two visits per pair;
+        # block-wise sweep: one visit per half)
+        accs = {0: ({}, {}), 1: ({}, {})}
+        for vs in KP.sweep_visits(l1):
+            _fin, acc, wrote = KP.run_visits(it, [vs])
+            for c_ in wrote:
+                accs[vs['b']][0][c_] = True
+            for k_, x_ in acc.items():
+                accs[vs['b']][1][k_] = accs[vs['b']][1].get(k_, 0) + x_
     except (KP.NotPairwise, KS.Unfoldable) as e:
         raise AnalysisBroken('reset accumulation loop: ' + str(e))
     if accs[0][0] or accs[1][0]:
